@@ -121,6 +121,17 @@ def _replay_chunk(keys):
             if why:
                 mismatches.append({"h": list(pre), "at": n, "why": why,
                                    "call": cfg.calls[k - 1]})
+                if template:
+                    # the build relations are implementation-vs-implementation: they are still
+                    # decided on a behaviour that drifted from the model (real outcomes are used)
+                    try:
+                        e2 = list(e)
+                        e2[0] = tuple(e[0][:n]) + (out,)
+                        e2[5] = None
+                        for pred, detail in check_build(cfg, run, ctx, pre, e2, P.project(run.seq, ctx)):
+                            hookv.append((pred, pre, detail))
+                    except Exception:  # noqa: BLE001
+                        pass
                 break
             verified.add(pre)
     return mismatches, nsteps, len(verified), hookv
